@@ -148,7 +148,9 @@ impl Driver {
                 }
             }
             LOp::Set(c, key, value) => {
-                if !is_literal(key) {
+                // a plain value of the shape {"Cas":[v,n]} is ambiguous in the store tree format
+                // (listed known finding D10 of C09): not generated here
+                if !is_literal(key) || crate::model::looks_like_cas_tag(value) {
                     return Ok(());
                 }
                 let r = api.set(key.clone(), value.clone(), cid(*c)).await;
@@ -226,7 +228,7 @@ impl Driver {
                     return Ok(());
                 }
                 let key = format!("$SYS/clients/{}/lastWill", cid(c));
-                let v: Vec<Value> = will.iter().filter(|(k, _)| is_literal(k)).map(|(k, v)| json!({"key": k, "value": v})).collect();
+                let v: Vec<Value> = will.iter().filter(|(k, v)| is_literal(k) && !crate::model::looks_like_cas_tag(v)).map(|(k, v)| json!({"key": k, "value": v})).collect();
                 let changed = api.get(key.clone()).await.ok() != Some(Value::Array(v.clone()));
                 api.set(key.clone(), Value::Array(v), cid(c)).await.map_err(|e| Failure::new("c11.lw", "Ok", e.to_string()))?;
                 if changed {
@@ -397,13 +399,20 @@ async fn run_case(case: &Case, kfs: &KnownFindings) -> Result<CaseReport, Failur
     let s = std::mem::take(&mut d.stats);
     let joined = !d.followers.is_empty();
     let stop = d.stop().await;
+    // a server that could not bind a port because another process on this machine holds it is
+    // an accident of the environment, not a property of the code
+    let port_taken = matches!(&stop, Err(f) if f.actual.contains("in use") || f.actual.contains("AddrInUse"));
     match res {
-        Err(f) if f.signature.get("obs").and_then(|o| o.as_str()) == Some("timeout") => {
+        Err(f) if port_taken || f.signature.get("obs").and_then(|o| o.as_str()) == Some("timeout") => {
             rep.inconclusive = true;
             return Ok(rep);
         }
         Err(f) => return Err(f),
         Ok(()) => {}
+    }
+    if port_taken {
+        rep.inconclusive = true;
+        return Ok(rep);
     }
     stop?;
     if joined {
